@@ -194,7 +194,14 @@ func lexToks(text string) (string, int, bool) {
 				return "", 0, false
 			}
 			if afterAt > 0 {
-				out = append(out, mk("KNUM", "[]", gallina.Z(timestamp.FromFloatSeconds(f))))
+				// |milliseconds|; int64(math.Round(f*1000)) overflows for f*1000 >= 2^63 (the parser's
+				// range check is on seconds): written as 2^63, whose negation is the MinInt64 the
+				// parser stores for the printed "-9223372036854776.000"
+				if f*1000 >= 9.223372036854775807e18 {
+					out = append(out, mk("KNUM", "[]", "9223372036854775808%Z"))
+				} else {
+					out = append(out, mk("KNUM", "[]", gallina.Z(timestamp.FromFloatSeconds(f))))
+				}
 			} else {
 				out = append(out, mk("KNUM", "[]", gallina.ZU(fbits(f))))
 			}
@@ -246,7 +253,7 @@ func gdur(d int64) string { noteDur(d); return gallina.Z(d) }
 func gat(ts *int64, soe parser.ItemType) string {
 	switch {
 	case ts != nil:
-		if a := abs64(*ts); cur != nil && tsRead(a) != a {
+		if a := abs64(*ts); cur != nil && *ts != math.MinInt64 && tsRead(a) != a {
 			cur.tsp[a] = tsRead(a)
 		}
 		return "(AtTs " + gallina.Z(*ts) + ")"
